@@ -13,7 +13,7 @@ RULE = ('strings are drawn per character from weighted classes (plain, ok-punctu
         'variables: random := definition lists (global / % / target, references, 3-4 variables, 2-6 targets), random DAGs and goal '
         'lists against the real make; in-process projects (library chains, executables, global options of each kind present or '
         'absent, own options present or absent) through the real Make handlers, non-trivial when steps with and without own '
-        'values of one kind coexist')
+        'values of one kind coexist' + '; system stage: generated projects with static libraries whose link_options= are forwarded (also through libs= of static libraries) to 5-6 consumers declared one after the other - the linker process of each compared with the declared closure of exactly that target (no missing, foreign or repeated word, each archive once) -, path-valued flag words (include / library directories, words joined from a string and a file, names with # $ blank @ + { ^, global and per target, source directory named with # and $), copies / symbolic / hard links between directories in near-prefix families (data / data2, lib / lib64, a / a.b) with the copying tools recorded: what a tool is handed, read from the directory of the link, names the input (path arithmetic and the real ln + readlink -f)')
 TRUSTED = ('R model Shell/Sh.v validated against /bin/dash on this run (word splitting; second layer: assignment words, export, tilde '
            'expansion, environment along && - with a private HOME; a process in an && list is assumed to exit 0; login-name tilde '
            'prefixes, OPTIND and shell builtins as command words are outside the model fragment)',
